@@ -233,6 +233,9 @@ def shrink_forest(forest, ctx, still_fails):
     while changed and budget > 0:
         changed = False
         for i in range(len(forest)):
+            # boxes in front of a moof fix its absolute position (explicit tfhd base, saio): keep them
+            if any(t[0] == "N" and t[1] == G.cc("moof") for t in forest[i + 1:]):
+                continue
             cand = forest[:i] + forest[i + 1:]
             data = enc(cand)
             budget -= 1
@@ -444,20 +447,22 @@ def ch_tfdtset(ctx):
     for (v0, a, b), o in zip(cases, outs):
         ch.evaluations += 1
         data = struct.pack(">I4sB3s", 16 if v0 == 0 else 20, b"tfdt", v0, b"\0\0\0") + a.to_bytes(4 if v0 == 0 else 8, "big")
-        box = I.load(data, False, "rw").children[0]
-        before = box.size
-        box.base_media_decode_time = b
-        got = f"{box.version} {box.base_media_decode_time} {box.size - before}"
         ch.count("switch" if v0 == 0 and b >= 2**32 else "stay")
         if max(a, b) >= 2**31:
             ch.nontrivial.add((v0, a, b))
+        try:
+            box = I.load(data, False, "rw").children[0]
+            before = box.size
+            box.base_media_decode_time = b
+            got = f"{box.version} {box.base_media_decode_time} {box.size - before}"
+        except Exception as e:
+            got = f"exception:{type(e).__name__}"
         if got != o:
             ch.disagreements.append({"v0": v0, "old": a, "new": b, "model": o, "impl": got})
-        out = box.encode()
-        back = I.load(out, False, "r").children[0]
-        if back.base_media_decode_time != b or len(out) != box.size:
+        fails = _oracle_on_failure_dict({"kind": "tfdt-switch", "v0": v0, "old": a, "new": b})
+        if fails:
             ch.oracle_failures.append({"kind": "tfdt-switch", "v0": v0, "old": a, "new": b,
-                                       "what": "value or size lost after the assignment", "regions": []})
+                                       "failures": fails, "regions": []})
         ch.sample({"v0": v0, "old": a, "new": b, "result": got}, limit=3)
     return ch
 
@@ -977,11 +982,17 @@ def _oracle_on_failure_dict(f):
     if kind == "tfdt-switch":
         v0, a, b = f["v0"], f["old"], f["new"]
         data = struct.pack(">I4sB3s", 16 if v0 == 0 else 20, b"tfdt", v0, b"\0\0\0") + a.to_bytes(4 if v0 == 0 else 8, "big")
-        box = I.load(data, False, "rw").children[0]
-        box.base_media_decode_time = b
-        out = box.encode()
-        back = I.load(out, False, "r").children[0]
-        return [] if back.base_media_decode_time == b and len(out) == box.size else [{"clause": "tfdt-switch", "what": "value or size lost"}]
+        try:
+            box = I.load(data, False, "rw").children[0]
+            box.base_media_decode_time = b
+            out = box.encode()
+            back = I.load(out, False, "r").children[0]
+        except Exception as e:
+            return [{"clause": "tfdt-switch", "what": f"assign {b} then encode: exception {type(e).__name__}: {str(e)[:100]}"}]
+        if back.base_media_decode_time != b or len(out) != box.size or struct.unpack(">I", out[:4])[0] != len(out):
+            return [{"clause": "tfdt-switch", "what": f"after base_media_decode_time = {b}: value read back "
+                     f"{back.base_media_decode_time}, size attribute {box.size}, encoded length {len(out)}"}]
+        return []
     if "fixture" in f and not f.get("data"):
         data = (FIXTURES / f["fixture"]).read_bytes()
         return oracle_roundtrip(data, iv)
